@@ -60,15 +60,15 @@ def okey(outcome) -> str:
     return hashlib.blake2b(s.encode(), digest_size=8).hexdigest()
 
 
-def _kind(code: int) -> str:
-    return "timer" if code < 0 else "thread"
+from .core import kind_of as _kind
 
 
 def _used(trace, upto=None):
-    used = {"thread": 0, "timer": 0}
+    used = {}
     for opts, ch in (trace if upto is None else trace[:upto]):
         if ch != 0:
-            used[_kind(opts[ch])] += 1
+            k = _kind(opts[ch])
+            used[k] = used.get(k, 0) + 1
     return used
 
 
@@ -82,9 +82,9 @@ def children(trace, start, budget, used0=None):
         # positions >= start all took the default (0) in this execution
         for alt in range(1, len(opts)):
             k = _kind(opts[alt])
-            if used[k] + 1 > budget.get(k, 0):
+            if used.get(k, 0) + 1 > budget.get(k, 0):
                 continue
-            if total_cap is not None and used["thread"] + used["timer"] + 1 > total_cap:
+            if total_cap is not None and sum(used.values()) + 1 > total_cap:
                 continue
             out.append([c for _, c in trace[:i]] + [alt])
     return out
